@@ -52,9 +52,10 @@ class AST:
     def arr(self, vals): return self.ir.E(X, 'ArrayInLine', meta=self.meta(), values=VecV(list(vals)))
     def par(self, e): return self.ir.E(X, 'ParallelOp', meta=self.meta(), rhe=BoxV(e))
     def idx(self, e): return Enum('ast::Access', 'ArrayAccess', [e])
+    def comp(self, name): return Enum('ast::Access', 'ComponentAccess', [StrV.of(name)])
 
 
-EXPR_SHAPES = ['plain', 'top', 'infix_l', 'infix_r', 'prefix', 'switch_c', 'switch_t', 'switch_f', 'call', 'array', 'index', 'parallel', 'nested_tuple']
+EXPR_SHAPES = ['plain', 'top', 'infix_l', 'infix_r', 'prefix', 'switch_c', 'switch_t', 'switch_f', 'call', 'array', 'index', 'parallel', 'nested_tuple', 'index_2nd', 'comp_index', 'index_comp']
 STMT_SLOTS = ['return', 'assert', 'log', 'ceq_l', 'ceq_r', 'subst_rhe', 'subst_idx', 'decl_dim', 'if_cond', 'while_cond', 'multi_l', 'multi_r', 'multi_both', 'block', 'init', 'if_body', 'else_body', 'while_body']
 
 
@@ -71,6 +72,9 @@ def mk_expr(b, shape, sugar):
     if shape == 'call': return b.call([b.var('a'), t()])
     if shape == 'array': return b.arr([b.num(1), t()])
     if shape == 'index': return b.var('v', [b.idx(t())])
+    if shape == 'index_2nd': return b.var('m', [b.idx(b.num(0)), b.idx(t())])
+    if shape == 'comp_index': return b.var('c', [b.comp('o'), b.idx(t())])
+    if shape == 'index_comp': return b.var('d', [b.idx(t()), b.comp('o')])
     if shape == 'parallel': return b.par(t())
     if shape == 'nested_tuple': return b.tuple([b.var('a'), t()])
     raise KeyError(shape)
@@ -119,10 +123,59 @@ COMBOS = [(sl, sh, sg) for sl in STMT_SLOTS for sh in EXPR_SHAPES for sg in ('tu
 
 def tasks(tier):
     n = len(COMBOS); chunk = (n + 31) // 32
-    return [{'lo': i, 'hi': min(n, i + chunk)} for i in range(0, n, chunk)]
+    ts = [{'lo': i, 'hi': min(n, i + chunk)} for i in range(0, n, chunk)]
+    ts += [{'part': 'expand', 'nl': nl, 'nr': nr} for nl in (1, 2, 3, 4) for nr in (nl, nl + 1)]
+    return ts
+
+
+def run_expand(task):
+    """(d_1, .., d_n) op (r_1, .., r_m): destination names are SYMBOLIC one-character strings, so whether an element is `_`
+    is the solver's choice wherever the code compares a name with "_".  Expected: Err if n != m, else the block
+    [d_i op r_i for the i with d_i != "_"] in order."""
+    pr = prog(); ir = IR(pr)
+    h = Harness(pr, 'parser'); stats = Stats()
+    R = lambda p, f: h.stub_res.append((re.compile(p), f))
+    R(r'(?:errors::)?TupleError::boxed_report', lambda ex, a, m: BoxV(Opaque('report', 'tuple')))
+    R(r'(?:errors::)?TupleError::into_report', lambda ex, a, m: Opaque('report', 'tuple'))
+    nl, nr = task['nl'], task['nr']
+    cs = [z3.Int('d%d' % i) for i in range(nl)]
+    for i, c in enumerate(cs): h.inputs['d%d' % i] = c
+    base = [z3.Or(c == 95, z3.And(c >= 112, c <= 122)) for c in cs]
+    rm = pr.find('remove_tuples_from_statement', crate='parser')
+
+    def entry(ex):
+        b = AST(ir)
+        lhe = b.tuple([ir.E(X, 'Variable', meta=b.meta(), name=StrV([c]), access=VecV([])) for c in cs])
+        rhe = b.tuple([b.var('r%d' % j) for j in range(nr)])
+        st = ir.E(S, 'MultiSubstitution', meta=b.meta(), lhe=lhe, op=Enum('ast::AssignOp', 'AssignConstraintSignal'), rhe=rhe)
+        return ex.call_mir(rm, [st])
+
+    def post(ex, res):
+        under = [ex.decide(c == 95) for c in cs]
+        info = {'destinations': ['_' if u else 'd%d' % i for i, u in enumerate(under)], 'sources': nr}
+        if nl != nr:
+            ex.oblige(res.var == 'Err', 'expand', 'tuples of different length are rejected (%s)' % info, extra=info); return
+        ex.oblige(res.var == 'Ok', 'expand', 'a well-formed tuple assignment is expanded (%s)' % info, extra=info)
+        if res.var != 'Ok': return
+        blk = deref(res.f[0])
+        ex.oblige(blk.var == 'Block', 'expand', 'the expansion is a block of assignments', extra=info)
+        if blk.var != 'Block': return
+        got = []
+        for st in ir.get(blk, 'stmts').items:
+            st = deref(st)
+            if st.var != 'Substitution': got.append(('?', st.var)); continue
+            rhe = deref(ir.get(st, 'rhe'))
+            nm = ir.get(st, 'var'); k = [i for i, c in enumerate(cs) if deref(nm).chars and deref(nm).chars[0] is c]
+            got.append((k[0] if k else repr(deref(nm)), ir.get(rhe, 'name').concrete() if rhe.var == 'Variable' else rhe.var, ir.get(st, 'op').var))
+        want = [(i, 'r%d' % i, 'AssignConstraintSignal') for i in range(nl) if not under[i]]
+        ex.oblige(got == want, 'expand', 'a tuple assignment behaves as the element-wise assignments in order, skipping `_` (destinations %s: got %s, expected %s)' % (info['destinations'], got, want), extra=info)
+    st_, vs, inc = explore(h, entry, None, post=post, base=base, stats=stats, seed=common.seed())
+    for v in vs: v.extra['combo'] = ('expand', str(v.extra.get('destinations')), 'tuple')
+    return {'stats': common.pack_stats(stats), 'violations': [common.pack_violation(v) for v in vs]}
 
 
 def run_task(task):
+    if task.get('part') == 'expand': return run_expand(task)
     pr = prog(); ir = IR(pr)
     h = Harness(pr, 'parser'); stats = Stats()
     R = lambda p, f: h.stub_res.append((re.compile(p), f))
@@ -166,7 +219,8 @@ def run_task(task):
 
 # ----------------------------------------------------------------------------- replay through the real binary
 SRC_EXPR = {'plain': 'a + 2', 'top': '(a, b)', 'infix_l': '(a, b) + a', 'infix_r': 'a + (a, b)', 'prefix': '-(a, b)', 'switch_c': '(a, b) ? 1 : 2', 'switch_t': 'a ? (a, b) : 2',
-            'switch_f': 'a ? 1 : (a, b)', 'call': 'f(a, (a, b))', 'array': '[1, (a, b)]', 'index': 'v[(a, b)]', 'nested_tuple': '(a, (a, b))'}
+            'switch_f': 'a ? 1 : (a, b)', 'call': 'f(a, (a, b))', 'array': '[1, (a, b)]', 'index': 'v[(a, b)]', 'nested_tuple': '(a, (a, b))',
+            'index_2nd': 'm[0][(a, b)]', 'comp_index': 'c.o[(a, b)]', 'index_comp': 'd[(a, b)].o'}
 
 
 def source_for(slot, shape):
@@ -176,12 +230,44 @@ def source_for(slot, shape):
             'subst_idx': 'v[%s] = a;' % e, 'decl_dim': 'var w[2][%s];' % e, 'if_cond': 'if (%s) { }' % e, 'while_cond': 'while (%s) { }' % e,
             'block': '{ x = a; assert(%s); }' % e, 'if_body': 'if (a) { assert(%s); }' % e, 'else_body': None, 'while_body': None, 'init': 'var z = %s;' % e}.get(slot)
     if line is None: return None
-    return 'pragma circom 2.0.0;\ntemplate T() {\n    signal input a;\n    signal input b;\n    var x;\n    var v[2];\n    %s\n}\n' % line
+    return ('pragma circom 2.0.0;\ntemplate Sub() {\n    signal input i;\n    signal output o[2];\n    o[0] <== i;\n    o[1] <== i;\n}\n'
+            'template T() {\n    signal input a;\n    signal input b;\n    var x;\n    var v[2];\n    var m[2][2];\n    component c = Sub();\n    c.i <== a;\n    component d[2];\n    d[0] = Sub();\n    d[1] = Sub();\n    d[0].i <== a;\n    d[1].i <== b;\n    %s\n}\n' % line)
+
+
+def confirm_expand(dests):
+    """findings of the tuple form == findings of the hand-written expansion (ids and anchored signal names), through the native pipeline"""
+    import ast as _ast
+    dests = _ast.literal_eval(dests) if isinstance(dests, str) else dests
+    n = len(dests)
+    head = 'pragma circom 2.0.0;\ntemplate T() {\n' + ''.join('    signal input i%d;\n    signal output o%d;\n' % (i, i) for i in range(n))
+    lhs = ', '.join('_' if d == '_' else 'o%d' % i for i, d in enumerate(dests)); rhs = ', '.join('i%d * i%d' % (i, i) for i in range(n))
+    a = head + '    (%s) <== (%s);\n}\n' % (lhs, rhs)
+    b = head + ''.join('    o%d <== i%d * i%d;\n' % (i, i, i) for i, d in enumerate(dests) if d != '_') + '}\n'
+    d = tempfile.mkdtemp(prefix='vc18_', dir=common.CACHE)
+    outs = []
+    try:
+        nat = common.Native(common.build_replay('vr_analysis'))
+        for k, src in enumerate((a, b)):
+            path = os.path.join(d, 'f%d.circom' % k); open(path, 'w').write(src)
+            out = nat.ask('analyzefile bn254 ' + path, timeout=30)
+            # a finding is identified by its code and the text under its primary label
+            toks = []
+            for t in out.split()[1:]:
+                f = t.split(':'); lo, hi = f[2].split('-')
+                toks.append((f[0], src.encode()[int(lo):int(hi)].decode(errors='replace').split('<==')[0].strip() if int(lo) >= 0 else ''))
+            outs.append((out.split()[0] if out else '', sorted(toks)))
+        nat.close()
+    finally:
+        shutil.rmtree(d, ignore_errors=True)
+    # findings anchored at a declaration are compared with their text, the others (anchored at the assignment, whose text differs by construction) by code
+    norm = lambda o: sorted((c, x if x.startswith('signal') else '') for c, x in o[1])
+    return outs[0][0] != 'OK' or norm(outs[0]) != norm(outs[1]), {'tuple form': outs[0], 'expansion': outs[1]}, 'the same findings'
 
 
 def confirm(combo):
     from . import realbin
     slot, shape, sugar = combo
+    if slot == 'expand': return confirm_expand(shape)
     if sugar != 'tuple': return None, 'engine-level only', None
     src = source_for(slot, shape)
     if src is None: return None, 'no source form for this combination', None
@@ -200,7 +286,7 @@ def main(tier, replay=None):
     if replay:
         d = json.load(open(replay)); bad, got, exp = confirm(tuple(d['combo']))
         print('replay: observed=%s expected=%s -> %s' % (got, exp, 'VIOLATION' if bad else 'holds')); return 1 if bad else 0
-    for combo in (('subst_rhe', 'infix_r', 'tuple'), ('if_cond', 'top', 'tuple'), ('ceq_l', 'plain', 'tuple')):
+    for combo in (('subst_rhe', 'infix_r', 'tuple'), ('if_cond', 'top', 'tuple'), ('ceq_l', 'plain', 'tuple'), ('expand', "['d0', '_', 'd2']", 'tuple'), ('expand', "['_', 'd1']", 'tuple')):
         bad, got, exp = confirm(combo); rep.validated += 1
         if bad: rep.inconclusive.append('fixed program %s: %s' % (combo, got))
     ts = tasks(tier)
@@ -212,7 +298,7 @@ def main(tier, replay=None):
         rep.add_stats(r['stats'])
         for v in r['violations']:
             combo = tuple(v['extra'].get('combo', ('?', '?', '?')))
-            role = {'function': 'remove_tuples_from_statement' if v['kind'] == 'tuple-left' else 'ContainsExpression', 'kind': v['kind'], 'class': combo[0]}
+            role = {'function': 'remove_tuples_from_statement' if v['kind'] in ('tuple-left', 'expand') else 'ContainsExpression', 'kind': v['kind'], 'class': combo[0]}
             key = json.dumps(role, sort_keys=True)
             if key in seen: continue
             bad, got, exp = confirm(combo); rep.validated += 1
@@ -231,6 +317,7 @@ def main(tier, replay=None):
     rep.bounds = {'statements': '%d statement slots x %d expression shapes x {tuple, anonymous component} = %d combinations (solver variable `combo`)' % (len(STMT_SLOTS), len(EXPR_SHAPES), len(COMBOS))}
     rep.stubs = ['TupleError / AnonymousComponentError report construction']
     rep.assumptions = ['an independent walker over the resulting value decides whether a tuple is left', 'source hash ' + pr.hashes['parser']]
-    rep.outside = ['anonymous-component expansion (remove_anonymous_from_statement/expression: needs template signatures)', 'that a tuple assignment behaves as the element-wise assignments and findings equal those of the hand-written expansion', 'deeper nestings']
+    rep.bounds['expansion'] = 'tuple assignments with 1..4 destinations whose names are symbolic one-character strings (`_` or a letter) and as many or one more source'
+    rep.outside = ['anonymous-component expansion (remove_anonymous_from_statement/expression: needs template signatures)', 'tuple assignments whose right-hand side is an anonymous component; findings of the expansion beyond the fixed native scenarios', 'deeper nestings']
     rep.extra['exhaustive'] = True
     return rep.finish()
